@@ -5,7 +5,7 @@ Import ListNotations.
 (* ---------- simplification of record accessors over setters ---------- *)
 Ltac ss :=
   cbn [hosts desc excl closing shut cur secure ph nfail imm ntasks opn waiters dials verifs nextcid now subs
-       supsub tie fuel_out adv_out trace
+       supsub ploss set_ploss tie fuel_out adv_out trace
        set_hosts set_desc set_excl set_closing set_shut set_cur set_secure set_ph set_nfail set_imm set_ntasks
        set_opn set_waiters set_dials set_verifs set_nextcid set_now set_subs set_supsub set_tie set_fuel_out set_adv_out
        set_trace emit] in *.
@@ -511,6 +511,9 @@ Proof. intros H. dinv H. unfold running in *. fin. Qed.
 Lemma set_shut_inv b s : Inv s -> Inv (set_shut b s).
 Proof. intros H. dinv H. unfold running in *. fin. Qed.
 
+Lemma set_ploss_inv b s : Inv s -> Inv (set_ploss b s).
+Proof. intros H. dinv H. unfold running in *. fin. Qed.
+
 Lemma remove_waiter_In w w' d l : In (w', d) (remove_waiter w l) -> In (w', d) l.
 Proof. unfold remove_waiter. intros H. apply filter_In in H. tauto. Qed.
 
@@ -640,7 +643,10 @@ Proof.
       * rewrite It, Hrun. reflexivity.
       * intros s'' HC Hh' Hd' _ _ _. apply attempt_loop_inv; [exact HC|].
         pose proof (need_lt_fuel s'') as Hn. unfold fuel_of in *. ss. rewrite Hh', Hd' in Hn. exact Hn.
-    + (* the re-subscribe round trip completes: the connector is done *)
+    + (* the re-subscribe round trip completes: the connector is done - or the accessory drops the
+         connection instead of answering (scripted loss = the control event Drop / DropReset) *)
+      destruct (ploss s) as [reset|] eqn:El.
+      { apply lose_current_inv; [exact H1|]. assert (H1' := H1). dinv H1'. ss. exact (Ip _ _ Ep). }
       assert (Hrun : running (set_now t s) = true) by (unfold running; ss; now rewrite Ep).
       assert (H1' := H1). dinv H1'. ss.
       pose proof (Ip _ _ Ep) as Hcur.
@@ -842,6 +848,11 @@ Proof.
   destruct (running (do_close (set_shut true (emit (EvControl Shutdown) s)))) eqn:Er; [|reflexivity].
   dinv H1. specialize (Ir Er). congruence.
 Qed.
+
+(* a scripted loss (verify outcomes okfin / okrst) is exactly the loss event of the controls Drop / DropReset *)
+Lemma scripted_loss_fire s c u reset :
+  ph s = PPost c u -> ploss s = Some reset -> fire (TPhase u) s = lose_current reset c (set_now u s).
+Proof. intros Hp Hl. unfold fire. cbn [timer_time]. ss. rewrite Hp, Hl. reflexivity. Qed.
 
 (* ---------- after shutdown nothing is attempted any more ---------- *)
 Fixpoint count_dials (tr : list (N * ev)) : nat :=
